@@ -283,3 +283,23 @@ PROPS["C19"] = {
     "note": "Enumeration of interleavings and 'the end message is the last frame' are schedule/value properties and not decided. "
             "Atomic single-attribute stores of CPython are assumed benign; only multi-write frames need the lock.",
 }
+
+SOURCE_COMMITS += ["236aa37", "4c467be"]  # C11 fixes: plain section newline; IO.*_line_raw write a line
+
+PROPS["C11"] = {
+    "claimed": True,
+    "technique": "static analysis: per-concrete-class newline summary by constant propagation of boolean parameters through virtual dispatch, SGR table Style <-> converter <-> installed pastel, sibling registration checks, context-manager restore pairing and scoped-use lint",
+    "text": (
+        "Decides: (R1) for every concrete Output and IO class, each line-writing method (write_line, write_line_raw, error_line, "
+        "error_line_raw, SectionOutput.overwrite) appends exactly one newline to its text on every path that writes it - computed by "
+        "path enumeration with propagation of the new_line argument through self/super/attribute delegation resolved per concrete "
+        "class; (R2) every boolean attribute of api.formatter.Style has a predicate that StyleConverter consults and maps to an option "
+        "name present in the installed pastel's OPTIONS table with the expected SGR code; (R3) style set, add_style and per-call style "
+        "all go through the converter with foreground, background and options; (R4) the plain formatter is built with colours off, "
+        "never switches them, registers the same style set, and Output.write strips markup on undecorated outputs; (R5) Indent saves "
+        "before it sets, restores unconditionally, does not swallow exceptions, and every indent()/increment_indent() call is a "
+        "'with' item (one enumerated exception)."
+    ),
+    "note": "ANSI-stripped = plain = tag-stripped for all messages and exact prefixes of indented lines go through a third-party "
+            "formatter and are not decided.",
+}
